@@ -391,7 +391,42 @@ func c19Controller(c *Ctx) {
 	// returns as well as before it tries again?
 	loopRefreshes, loopHasRefresh := false, false
 	var loopPath []*ssa.BasicBlock
-	if ro := p.Fn("clusterAdmin.retryOnError"); ro != nil && hasItem(ro, p.CallTo("clusterAdmin.refreshController", "Client.RefreshController")) {
+	refreshCall := p.CallTo("clusterAdmin.refreshController", "Client.RefreshController")
+	// the refresh may also live in the predicate handed to retryOnError (a method that answers "retry?" and, where
+	// the answer is yes, refreshes the controller first): calling the predicate is then the refresh
+	predRefreshes := false
+	{
+		nSites, nGood := 0, 0
+		for _, fn := range p.Fns {
+			for _, s := range Info(fn).Find(p.CallTo("clusterAdmin.retryOnError")) {
+				a := callArgs(s)
+				if len(a) < 3 {
+					continue
+				}
+				nSites++
+				pred := p.FuncOfValue(a[1])
+				// a method value: the bound wrapper calls the method
+				for d := 0; d < 2 && pred != nil && !hasItem(pred, refreshCall); d++ {
+					var next *ssa.Function
+					Info(pred).Each(func(it Item) {
+						if cc, ok := callCommon(it); ok && !cc.IsInvoke() && cc.StaticCallee() != nil && cc.StaticCallee().Pkg == p.Sarama && next == nil {
+							next = cc.StaticCallee()
+						}
+					})
+					pred = next
+				}
+				if pred == nil || !hasItem(pred, refreshCall) {
+					continue
+				}
+				// every `return true` of the predicate is preceded by the refresh
+				if it, _ := WholeFn(pred).MustPrecede(refreshCall, func(it Item) bool { return IsReturn()(it) && returnsBool(true)(it) }); it.IsZero() {
+					nGood++
+				}
+			}
+		}
+		predRefreshes = nSites > 0 && nGood == nSites
+	}
+	if ro := p.Fn("clusterAdmin.retryOnError"); ro != nil && (predRefreshes || hasItem(ro, refreshCall)) {
 		loopHasRefresh = true
 		rreg := WholeFn(ro)
 		isFnCall := func(it Item) bool {
@@ -413,7 +448,14 @@ func c19Controller(c *Ctx) {
 			next := func(it Item) bool {
 				return isFnCall(it) || (IsReturn()(it) && !IsRecoverBlock(it.In.Block()))
 			}
-			if it, p2 := sub.MustPrecede(p.CallTo("clusterAdmin.refreshController", "Client.RefreshController"), next); !it.IsZero() {
+			refreshEv := refreshCall
+			if predRefreshes {
+				refreshEv = Or(refreshCall, func(it Item) bool {
+					cl, ok := it.In.(*ssa.Call)
+					return ok && retriable(cl)
+				})
+			}
+			if it, p2 := sub.MustPrecede(refreshEv, next); !it.IsZero() {
 				loopRefreshes, loopPath = false, p2
 			}
 		}
